@@ -365,5 +365,10 @@ def run(ctx):
         check_order(ctx, fn, merged)
     check_col(ctx)
     check_mcmc(ctx)
+    from .C07 import _Relabel
+    from .C15 import check_lock as c15_lock
+    ctx.rule("C08-SORT", "the merged RVData orders its rows by time alone (a stable argsort of the times) and applies the same selection to times, velocities and errors: the "
+                         "survey labels, which are built in concatenation order, rely on exactly that order (shared with C15-LOCK).")
+    c15_lock(_Relabel(ctx, {"C15-LOCK": "C08-SORT"}))
     ctx.assume("np.unique returns sorted unique values; boolean-mask row assignment touches exactly the masked rows")
     ctx.assume("RVData row order = time-sorted finite subset (decided by C15-LOCK)")
